@@ -160,10 +160,17 @@ class Value:
     def __int__(self):
         return self.as_int()
 
-    def string(self, *a, **k):
+    def string(self, encoding=None, errors=None, length=-1):
+        # gdb.Value.string([encoding [, errors [, length]]]): the bytes of the C string in the inferior, decoded with the given encoding, by default
+        # the target charset (UTF-8 here, what Wayland strings are in); the model keeps the text and goes through its bytes
         if not isinstance(self.p, str):
             raise error('Trying to read string with inappropriate type')
-        return self.p
+        if type(self.p) is not str:
+            return self.p              # a symbolic / opaque text: no encoding can be applied
+        raw = self.p.encode('utf-8', 'surrogateescape')
+        if length is not None and length >= 0:
+            raw = raw[:length]
+        return raw.decode(encoding or 'utf-8', errors or 'strict')
 
     def __str__(self):
         v = self.as_int()
